@@ -46,7 +46,9 @@ WFDb(db) == \A k \in DOMAIN db : WFVal(db[k])
 
 WrongType(db, k, ty) == Has(db, k) /\ db[k].ty # ty
 WT == RErr("WRONGTYPE")
-EArg == RErr("ERR")          \* arity / syntax / not-an-integer / out-of-range: all code ERR
+\* arity / syntax / not-an-integer: code ERR; tagged because the emulator detects these while parsing
+EArg == [t |-> "err", code |-> "ERR", parse |-> TRUE]
+IsParseErr(r) == r.t = "err" /\ "parse" \in DOMAIN r
 
 (* Result of a command on one database:
      db  : successor database           r   : reply
